@@ -471,6 +471,36 @@ def tie_t_test_ndarray(rng, n):
     return len(exp), bad
 
 
+def tie_w_test_ndarray(rng, n):
+    """paired differences with ties in |d| (values on a coarse grid), zeros (removed), both signs, 0 to 300 entries (the three
+    branches of numpy.sum: fewer than 8, blocks of 8, halving above 128), a non-zero median m; `norm.sf` replaced on both sides
+    by the same elementary function. z and the probability are compared to 1e-12 (the last three operations are real-layer)."""
+    import numpy
+    import warnings
+    import scipy.stats
+    from csep.core import poisson_evaluations as pe
+    drv, exp = Driver(), []
+    with _patched(scipy.stats.distributions.norm, "sf", lambda z: 1.0 / (1.0 + z)):
+        for _ in range(max(20, n // 2)):
+            size = rng.choice([0, 1, 2, 5, 7, 8, 9, 16, 17, 40, 127, 128, 129, 130, 200, 300])
+            grid = rng.choice([0.5, 0.25, 0.1, 1.0, None])
+            m = rng.choice([0.0, 0.0, 0.5, -0.25, 0.1])
+            xs = []
+            for _k in range(size):
+                v = rng.uniform(-4, 4) if grid is None else round(rng.uniform(-4, 4) / grid) * grid
+                if rng.random() < 0.08:
+                    v = m           # a zero difference
+                xs.append(float(v))
+            with numpy.errstate(all="ignore"), warnings.catch_warnings():
+                warnings.simplefilter("ignore")
+                r = pe._w_test_ndarray(numpy.array(xs), m)
+            exp.append(((xs, m), [float(r["z_statistic"]), float(r["probability"])]))
+            drv.ask(f"src_w_test_ndarray {frac(m)} {flist(xs)}")
+    out = drv.run()
+    bad = [(c, r, o) for (c, r), o in zip(exp, out) if not all(_close(a, _unbits(b)) for a, b in zip(r, o.split(",")))]
+    return len(exp), bad
+
+
 def tie_paired_t_test(rng, n):
     import numpy
     import scipy.stats
@@ -1372,6 +1402,44 @@ def tie_jma_record(rng, n):
     return total, bad
 
 
+def tie_parse_datetime_to_zmap(rng, n):
+    """date / time strings of NDK hypocenter lines: canonical and short field widths, fractions of one to six digits, seconds
+    ":60.0" (rewritten, a minute added: carries into the hour, the day, the month, the year), ":60.00" / ":60.5" (not rewritten:
+    ValueError -> RuntimeError), invalid calendar dates and clock readings, blanks, broken texts"""
+    from csep.utils import readers
+    drv, exp = Driver(), []
+    for _ in range(max(40, n)):
+        y, mo, d = rng.randint(1900, 2100), rng.randint(1, 12), rng.randint(1, 28)
+        hh, mi, ss = rng.randint(0, 23), rng.randint(0, 59), rng.randint(0, 59)
+        k = rng.random()
+        if k < 0.12:
+            mo, d, hh, mi = rng.choice([(12, 31, 23, 59), (2, 28, 23, 59), (2, 29, 23, 59), (mo, d, hh, 59), (mo, 30, 23, 59), (1, 31, 23, 59)])
+        elif k < 0.22:
+            mo, d, hh, ss = rng.choice([(13, d, hh, ss), (2, 30, hh, ss), (mo, d, 24, ss), (mo, d, hh, 61), (0, d, hh, ss), (mo, 0, hh, ss)])
+        fr = rng.choice(["0", "5", "25", "123", "1234", "12345", "123456", "00", "9"])
+        canon = rng.random() < 0.7
+        date = f"{y:04d}/{mo:02d}/{d:02d}" if canon else f"{y}/{mo}/{d}"
+        sec = rng.choice(["60.0", "60.0", "60.00", "60.5", "60"]) if rng.random() < 0.25 else (f"{ss:02d}.{fr}" if canon else f"{ss}.{fr}")
+        time = (f"{hh:02d}:{mi:02d}:" if canon else f"{hh}:{mi}:") + sec
+        j = rng.random()
+        if j < 0.05:
+            time = " " + time
+        elif j < 0.08:
+            date, time = rng.choice([(date.replace("/", "-"), time), (date, time.replace(".", "")), ("", time), (date, ""),
+                                     (date + " ", time), (date, time + " "), (date, time + "Z")])
+        try:
+            o = readers._parse_datetime_to_zmap(date, time)
+            r = ":".join(str(o[k_]) for k_ in ("year", "month", "day", "hour", "minute", "second"))
+        except RuntimeError:
+            r = "Exception"
+        except (ValueError, OverflowError) as e:
+            r = type(e).__name__
+        exp.append(((date, time), r))
+        drv.ask(f"src_parse_datetime_to_zmap {_codes(date)} {_codes(time)}")
+    out = drv.run()
+    return len(exp), [(c, r, o) for (c, r), o in zip(exp, out) if r != o]
+
+
 def tie_csep_is_header(rng, n):
     """`is_header_line` is nested in csep_ascii: reached through one-record files (a header-only file gives no events; an
     empty record raises IndexError; anything else is parsed as a record)"""
@@ -1793,8 +1861,10 @@ def tie_scale_to_test_date(rng, n):
 TIES = {
     "er_init": tie_er_init,
     "grid_from_dict": tie_grid_from_dict,
+    "w_test_ndarray": tie_w_test_ndarray,
     "csep_record": tie_csep_record,
     "jma_record": tie_jma_record,
+    "parse_datetime_to_zmap": tie_parse_datetime_to_zmap,
     "csep_is_header": tie_csep_is_header,
     "grid_to_dict": tie_grid_to_dict,
     "quad_to_dict": tie_quad_to_dict,
